@@ -10,7 +10,7 @@
 (* in `tdev`, reported at acceptance as DEVUSED).                          *)
 (* Events: Cfg(pipe, res, b, x)  ScopeEnter(t, s, id)  ScopeExit(t, id)          *)
 (*   Create(t, lg, r)  Set(t, r, a)  BeginEmit(t, via, lg, r)  Arg(t, a)   *)
-(*   EndEmit(t, got)  Flush(got)       got[p] = snapshots read at the      *)
+(*   AddProc(kind)  EndEmit(t, got)  Flush(got)       got[p] = snapshots read at the      *)
 (*   exporter of processor p since the previous event (batch: since the    *)
 (*   previous flush), a = [k, v, nm, m].                                   *)
 (***************************************************************************)
@@ -30,17 +30,18 @@ TInit == /\ TLCSet(1, 0)
          /\ pipe = <<"simple">> /\ res = 1
          /\ spans = [t \in Threads |-> <<>>] /\ scopeIds = [t \in Threads |-> {}] /\ nscope = 0
          /\ recs = <<>> /\ cur = [t \in Threads |-> Idle]
-         /\ pending = <<<<>>>> /\ exported = <<<<>>>>
+         /\ pending = <<<<>>>> /\ exported = <<<<>>>> /\ maybe = <<{}>> /\ nadd = 0
          /\ nflush = 0 /\ nnull = 0 /\ crashed = FALSE /\ devUsed = {}
          /\ last = NoOp /\ flags = {} /\ hist = <<>>
          /\ l = 1 /\ nexec = 0 /\ tdev = {} /\ nexp = 0 /\ xid = <<0, 0>>
 
 TCfg == /\ Is("Cfg")
-        /\ Len(Ev.pipe) \in 1..3 /\ \A p \in 1..Len(Ev.pipe) : Ev.pipe[p] \in Kinds
+        /\ Len(Ev.pipe) \in 0..3 /\ \A p \in 1..Len(Ev.pipe) : Ev.pipe[p] \in Kinds
         /\ pipe' = Ev.pipe /\ res' = Ev.res
         /\ spans' = [t \in Threads |-> <<>>] /\ scopeIds' = [t \in Threads |-> {}] /\ nscope' = 0
         /\ recs' = <<>> /\ cur' = [t \in Threads |-> Idle]
         /\ pending' = [p \in 1..Len(Ev.pipe) |-> <<>>] /\ exported' = [p \in 1..Len(Ev.pipe) |-> <<>>]
+        /\ maybe' = [p \in 1..Len(Ev.pipe) |-> {}] /\ nadd' = 0
         /\ nflush' = 0 /\ nnull' = 0 /\ crashed' = FALSE /\ devUsed' = {}
         /\ last' = NoOp /\ flags' = {} /\ hist' = <<>>
         /\ nexec' = nexec + 1 /\ xid' = <<Ev.b, Ev.x>> /\ UNCHANGED <<tdev, nexp>>
@@ -58,6 +59,7 @@ TBeginEmit  == /\ Is("BeginEmit")
                     [] OTHER -> FALSE
                /\ Same
 TArg        == Is("Arg") /\ Arg(Ev.t, Ev.a) /\ Same
+TAddProc    == Is("AddProc") /\ AddProc(Ev.kind) /\ Same
 
 \* one observed snapshot g against the ideal x and the aliasing deviation's y
 Soft(gv, xv) == xv = 0 \/ gv = xv                    \* never supplied: the statement does not pin it down
@@ -70,12 +72,16 @@ SnapOK(g, x, y) ==
   /\ g.extra = 0 /\ Len(g.attrs) = NAK
   /\ \A k \in 1..NAK : Val(g.attrs[k], x.attrs[k], y.attrs[k])
 Deviates(g, x) == (x.body # 0 /\ g.body # x.body) \/ \E k \in 1..NAK : g.attrs[k] # x.attrs[k]
-GotOK(got, X, Y) ==
+\* X / Y: what must arrive (ideal / aliased); O / OD: what may additionally arrive, at most once, at a
+\* processor that was added after the record had been created
+GotOK(got, X, Y, O, OD) ==
   /\ Len(got) = Len(pipe)
   /\ \A p \in Procs :
-       /\ Len(got[p]) = Len(X[p])
        /\ \A i, j \in 1..Len(got[p]) : i # j => got[p][i].r # got[p][j].r
        /\ \A i \in 1..Len(X[p]) : \E j \in 1..Len(got[p]) : SnapOK(got[p][j], X[p][i], Y[p][i])
+       /\ \A j \in 1..Len(got[p]) :
+            \/ \E i \in 1..Len(X[p]) : got[p][j].r = X[p][i].r
+            \/ \E i \in 1..Len(O[p]) : SnapOK(got[p][j], O[p][i], OD[p][i])
 GotDev(got, X) ==
   IF \E p \in Procs : \E i \in 1..Len(X[p]) : \E j \in 1..Len(got[p]) :
         got[p][j].r = X[p][i].r /\ Deviates(got[p][j], X[p][i])
@@ -87,19 +93,19 @@ NGot(got) == LET RECURSIVE S(_)
 TEndEmit == /\ Is("EndEmit")
             /\ cur[Ev.t].mode # "idle"
             \* (`= TRUE`: evaluate as a plain boolean; TLC would otherwise split every \/ and \E into branches)
-            /\ GotOK(Ev.got, Deliver(Ev.t, FALSE), Deliver(Ev.t, TRUE)) = TRUE
+            /\ GotOK(Ev.got, Deliver(Ev.t, FALSE), Deliver(Ev.t, TRUE), DeliverOpt(Ev.t, FALSE), DeliverOpt(Ev.t, TRUE)) = TRUE
             /\ tdev' = tdev \cup GotDev(Ev.got, Deliver(Ev.t, FALSE))
             /\ nexp' = nexp + NGot(Ev.got)
             /\ EndEmit(Ev.t)
             /\ UNCHANGED <<nexec, xid>>
 TFlush == /\ Is("Flush")
-          /\ GotOK(Ev.got, Drain(FALSE), Drain(TRUE)) = TRUE
+          /\ GotOK(Ev.got, Drain(FALSE), Drain(TRUE), DrainOpt(FALSE), DrainOpt(TRUE)) = TRUE
           /\ tdev' = tdev \cup GotDev(Ev.got, Drain(FALSE))
           /\ nexp' = nexp + NGot(Ev.got)
           /\ Flush
           /\ UNCHANGED <<nexec, xid>>
 
-TNext == TCfg \/ TScopeEnter \/ TScopeExit \/ TCreate \/ TSet \/ TBeginEmit \/ TArg \/ TEndEmit \/ TFlush
+TNext == TAddProc \/ TCfg \/ TScopeEnter \/ TScopeExit \/ TCreate \/ TSet \/ TBeginEmit \/ TArg \/ TEndEmit \/ TFlush
 TSpec == TInit /\ [][TNext]_tvars
 
 Progress == TLCSet(1, IF l > TLCGet(1) THEN l ELSE TLCGet(1))
